@@ -29,6 +29,7 @@ MODELS = {
     "queens_like": dict(doms=2, vars=[(0, 0), (1, 0), (0, "o0"), (1, "o1")], props=[([0, 1], "alldifferent", []), ([2, 3], "alldifferent", [])]),
     "shared_offset_lt": dict(doms=2, vars=[(0, 0), (0, "o0"), (1, 0)], props=[([1, 2], "affine_leq", [1, -1, 0])]),
     "shared_twice": dict(doms=1, vars=[(0, 0), (0, "o0")], props=[([0, 1], "affine_leq", [2, -1, 0])], D=3),
+    "shared_twice_geq": dict(doms=1, vars=[(0, 0), (0, "o0")], props=[([0, 1], "affine_geq", [2, -1, 0])], D=3),
     "shared_twice_eq": dict(doms=2, vars=[(0, 0), (0, "o0"), (1, 0)], props=[([0, 1, 2], "affine_eq", [1, 1, -1, 0])]),
     "same_var_twice": dict(doms=2, vars=[(0, 0), (1, 0)], props=[([0, 0, 1], "affine_eq", [1, 1, -1, 0])]),
     "magic_like": dict(doms=2, vars=[(0, 0), (1, 0)], props=[([0, 1, 0], "count_eq", [0]), ([0, 1, 1], "count_eq", [1])], base=0),
@@ -53,6 +54,9 @@ MODELS = {
     # iteration starts again from the full root box
     "restart2": dict(doms=2, vars=[(0, 0), (1, 0)], props=[([0, 1], "affine_geq", [1, 1, S]), ([0, 1], "affine_leq", [-1, 1, S])]),
     "restart3": dict(doms=3, vars=[(0, 0), (1, 0), (2, 0)], props=[([0, 1], "affine_geq", [1, 1, S]), ([0, 1], "affine_leq", [-1, 1, S]), ([0, 2], "affine_leq", [2, 1, S])], D=1),
+    # infeasible in a way bound consistency cannot see (x1 = x0 and x1 != x0) next to a free variable: shaving has to refute the values
+    # one by one, each refuted probe leaves pending propagators behind
+    "eq_diff_free": dict(doms=3, vars=[(0, 0), (1, 0), (2, 0)], props=[([0, 1], "min_eq", []), ([1, 0], "alldifferent", [])], D=3),
     "free2": dict(doms=2, vars=[(0, 0), (1, 0)], props=[]),
     "dummy_only": dict(doms=2, vars=[(0, 0), (1, "o0")], props=[([0, 1], "dummy", [])]),
     "obj_under_leq": dict(doms=2, vars=[(0, 0), (1, 0)], props=[([0, 1], "affine_leq", [1, 1, S])]),
